@@ -48,7 +48,8 @@ class Matrix3(Matrix):
             if isinstance(arg, Qube.QUATERNION_CLASS):
                 return arg.to_matrix3(recursive=recursive)
 
-            arg = Matrix3(arg._values_, arg._mask_, example=arg)
+            arg = Matrix3(arg._values_, arg._mask_, derivs=arg._derivs_,
+                          example=arg)
             if recursive:
                 return arg
             return arg.wod
